@@ -40,7 +40,9 @@ def lean_stage(ctx, mod):
         gen_failed = [k for k, v in report.items() if not v['ok'] and k.startswith('gen:')]
         for k in gen_failed:
             ctx.oblige('translation:' + k, 'translation', False, report[k]['detail'])
-        ok, log = common.lake_build(getattr(mod, 'LEAN_MODULES', [f'FFVerif.Props.{prop}']))
+        # the driver's imports are rebuilt too, so that the executed model is the current one
+        ok, log = common.lake_build(getattr(mod, 'LEAN_MODULES', [f'FFVerif.Props.{prop}'])
+                                    + ['FFVerif.Model.All'])
         fails = common.failed_decls(log) if not ok else []
         bad_decls = []
         for f in fails:
@@ -149,10 +151,18 @@ def main():
                        'harness error: ' + repr(e) + traceback.format_exc()[-400:])
         ctx.stats['correspondence_s'] = round(time.time() - t1, 1)
         t2 = time.time()
-        mod.search(ctx, deep=False)
-        if ctx.broken() and not ctx.failures:
-            # a proof obligation / the tie broke: look harder for a concrete failing input
-            mod.search(ctx, deep=True)
+        try:
+            mod.search(ctx, deep=False)
+            if ctx.broken() and not ctx.failures:
+                # a proof obligation / the tie broke: look harder for a concrete failing input
+                mod.search(ctx, deep=True)
+        except Exception as e:  # noqa
+            # the implementation (or the harness on unexpected output of the implementation, e.g.
+            # an array of the wrong shape) raised inside the search: the property is not shown
+            # to hold on this tree
+            ctx.oblige('search:completed', 'search', False,
+                       'exception during the failing-input search: ' + repr(e)
+                       + traceback.format_exc()[-600:])
         ctx.stats['search_s'] = round(time.time() - t2, 1)
     except Exception:  # infrastructure error
         traceback.print_exc()
